@@ -256,7 +256,7 @@ def run(ctx):
     props = check_props(ctx.pid)
     model = build_model()
     impl = build_impl()
-    nschemas, nqueries = (70, 6) if ctx.tier == "quick" else (600, 12)
+    nschemas, nqueries = (110, 6) if ctx.tier == "quick" else (600, 12)
     schemas, ncorpus, cases, meta, bcases = build_cases(ctx, impl, nschemas, nqueries)
 
     # --- built-in definitions of every schema against the specification's (and well-formedness)
